@@ -52,7 +52,7 @@ CHECKS = {
 CHECKS.update({
     "C06": dict(
         cat="model_checking", tech="Search.tla exhaustively model-checked (every abort point / stop arrival / final and non-final roots); TLC trace validation of real search.Go and UCI go runs against Chess.tla",
-        text="Real searches on corpus, boxed-king, castle-stress and random roots with game prefixes (incl. second/third occurrences): every hard node budget 0..k on ONE engine instance (each k is one abort point, engine searched again after each abort), soft limits, pre-closed stop, stop closed when the depth-d info line passes, TT sizes 32 kB/1 MB/16 MB, used engines on new positions; positions the table cannot tell apart (same bucket and 16-bit signature, found by brute force for small tables) searched one after the other on one engine under every early abort; UCI go with arbitrary numeric arguments. TLC computes root, legal set and finality from FEN + prefix and requires: move null or legal, null only if final, completed search on a final root returns null with score 0/mated, board snapshot identical, one bestmove. Known finding F4-C06 matched by predicate.",
+        text="Real searches on corpus, boxed-king, castle-stress, single-special-move (en-passant capture only, interposing en-passant capture / double push; both colours) and random roots with game prefixes (incl. second/third occurrences): every hard node budget 0..k on ONE engine instance (each k is one abort point, engine searched again after each abort), soft limits, pre-closed stop, stop closed when the depth-d info line passes, TT sizes 32 kB/1 MB/16 MB, used engines on new positions; positions the table cannot tell apart (same bucket and 16-bit signature, found by brute force for small tables) searched one after the other on one engine under every early abort; UCI go with arbitrary numeric arguments. TLC computes root, legal set and finality from FEN + prefix and requires: move null or legal, null only if final, completed search on a final root returns null with score 0/mated, board snapshot identical, one bestmove. Known finding F4-C06 matched by predicate.",
         note="Sampled roots and limits; Search.tla's tree search is abstract.", ref="DESIGN.md section 4 C06"),
     "C07": dict(
         cat="model_checking", tech="TLC replays every reported principal variation through Chess!Make/Legal; Search.tla properties DepthsIncrease/NodesMonotone/BestIsHeadOfLastPV",
@@ -68,7 +68,7 @@ CHECKS.update({
         note="Not a byte-level fuzzer: single edits of canonical texts (ANY expanded to 256 bytes).", ref="DESIGN.md section 4 C11"),
     "C13": dict(
         cat="model_checking", tech="Uci.tla exhaustively model-checked (all conforming scripts <= 3/4 commands: safety, deadlock freedom, termination); observable-event trace validation with TLC inferring the driver's hidden steps; race detector",
-        text="Random conforming GUI scripts drive a real uci.Driver over pipes with a controllable mock search (info / poll stop / poll ponderhit / finish on command) or the real search, racing or waiting, slow and stalling output sink, 350-byte info lines, info bursts whose writes race with the next GUI command; only observable events (command about to be sent, line arrived, mock search steps, exit) are logged and every scenario must be a behaviour of Uci.tla up to Run returning with all goroutines gone; a harness wait that times out is accepted only where the model is quiescent too (else: deadlock/lost answer). A quarter of the scenarios run under the race detector; output lines are matched against the output grammar (torn lines).",
+        text="Random conforming GUI scripts drive a real uci.Driver over pipes with a controllable mock search (info / poll stop / poll ponderhit / finish on command) or the real search, racing or waiting, slow and stalling output sink, 350-byte info lines, info bursts whose writes race with the next GUI command; only observable events (command about to be sent, line arrived, mock search steps, exit) are logged and every scenario must be a behaviour of Uci.tla up to Run returning with all goroutines gone; one command in five is sent with blanks and tabs before, between and after its tokens; a harness wait that times out is accepted only where the model is quiescent too, and a wait for the exit never where the model has terminated (else: deadlock/lost answer). A quarter of the scenarios run under the race detector; output lines are matched against the output grammar (torn lines).",
         note="Timeouts are 20 s with everything else idle; -race build uses -d=checkptr=0.", ref="DESIGN.md section 4 C13"),
     "C15": dict(
         cat="model_checking", tech="TT.tla (code-shaped table + ghost 'what was stored') exhaustively model-checked on small domains and simulated on real widths; lock-step trace validation of a real transp.Table with colliding keys",
